@@ -820,6 +820,10 @@ func vc02Judge(t *rapid.T, env *vc02Env, e *vc02Exch) (classes []string, nt stri
 		if upNonEmpty {
 			classes = append(classes, "blocked-over-nonempty-upstream")
 		}
+
+		if qt == dns.TypeAAAA && mode.Kind == vc02ref.MCustom && vc02ref.HasMapped(mode.V6) {
+			classes = append(classes, "blocked-aaaa-with-ipv4-mapped-custom-address")
+		}
 	}
 
 	respWouldBlock := func() bool {
@@ -859,6 +863,10 @@ func vc02Judge(t *rapid.T, env *vc02Env, e *vc02Exch) (classes []string, nt stri
 		}
 	case vc02ref.ORwIP:
 		classes = append(classes, "rewrite-ip")
+		if vc02ref.HasMapped(got.IPs) {
+			classes = append(classes, "rewrite-aaaa-ipv4-mapped")
+		}
+
 		replaced = upNonEmpty
 	case vc02ref.ORwRcode:
 		classes = append(classes, "rewrite-rcode")
@@ -911,7 +919,8 @@ func TestVerifC02Shape(t *testing.T) {
 		"filtering-off-profile", "filtering-off-device", "anonymous-group-config", "profile-config", "blocked-over-nonempty-upstream",
 		"flag-off-hides-slot", "safety-verdict", "later-question-on-same-stack", "same-question-other-requester", "same-question-other-requester-blocked",
 		"identical-repeat", "near-miss-qtype", "near-miss-host", "concurrent-request", "concurrent-same-question-blocked", "edge-host-root-or-tld",
-		"own-allow-equals-shared-allow-with-safety-match", "self-rewrite-target-queried-mixed-case", "case-variant-pair-compared")
+		"own-allow-equals-shared-allow-with-safety-match", "self-rewrite-target-queried-mixed-case", "case-variant-pair-compared",
+		"blocked-aaaa-with-ipv4-mapped-custom-address", "rewrite-aaaa-ipv4-mapped")
 	st.Finish(t)
 
 	base := t.TempDir()
